@@ -29,7 +29,7 @@ META = {
             "values equal the reference predicate, an exception outside `catch` propagated and its trial is FAIL, callbacks ran "
             "exactly once per non-propagating trial, exactly n_trials ran when nothing stopped the loop. tell(values, state, "
             "skip_if_finished) is called with the full argument product on RUNNING / finished / WAITING / unknown trials and must "
-            "never alter a finished trial. Two callbacks are registered (the first may stop or raise) and each is counted. Late tell: worker A finishes a trial from inside worker B's tell (between its check and its write) on every backend; A, B and a fresh client must still see A's result. Held on the programs generated.",
+            "never alter a finished trial. Two callbacks are registered (the first may stop or raise) and each is counted. Late tell: worker A finishes a trial from inside worker B's tell (between its check and its write) on every backend; A, B and a fresh client must still see A's result. Every 6th program runs with show_progress_bar=True. Held on the programs generated.",
     "note": "Trusted: the reference predicate (COMPLETE iff every element of (value if Sequence else [value]) converts with float(), is "
             "not NaN and the count equals the number of objectives). With n_jobs>1 only the end-of-optimize invariants are asserted.",
     "technique": "runtime monitoring: invariant monitor at the return/raise edge of optimize/tell with a reference outcome predicate over generated programs",
